@@ -10,8 +10,8 @@ const SPEC: Spec = Spec {
         "refint two's complement (sign extension to max(len)+1 limbs) is trusted; cross-checked against Python on a transcript slice",
         "shift amounts that would exhaust memory are out of scope (property text); << is exercised with each type's MAX only when it is <= 65535 or the value is zero",
     ],
-    bounds_quick: "B1 (+-Dense(S5,3))^2 + (+-Dense(S5,4)) x (+-Dense(S5,2)) both orders; B2 (+-Runs({0,1,M},3,8))^2; B3 +-Dense(S5,3) x 33 amounts (incl. each type's MAX and negative amounts) x 12 types + every amount 0..=200 for u32/i64/u128; B4 +-Dense(S5,4) x indices 0..=330,2^32,2^40 x {bit,set,clear}",
-    bounds_thorough: "B1 additionally (+-Dense(S5,4))^2 and 4x3 / 3x4; B2 (+-Runs({0,1,M},3,12))^2; B3 every amount 0..=520; B4 indices 0..=400",
+    bounds_quick: "B1 (+-Dense(S5,3))^2 + (+-Dense(S5,4)) x (+-Dense(S5,2)) both orders; B2 (+-Runs({0,1,M},3,8))^2; B3 +-Dense(S5,3) x 33 amounts (incl. each type's MAX and negative amounts) x 12 types + every amount 0..=200 for u32/i64/u128; B4 +-Dense(S5,4) x indices 0..=330,2^32,2^40 x {bit,set,clear}; B6 long values of 300 and 1100 digits (4 shapes, both signs): all pairs through & | ^, shifts by digit-aligned / huge amounts, bit queries",
+    bounds_thorough: "B1 additionally (+-Dense(S5,4))^2 and 4x3 / 3x4; B2 (+-Runs({0,1,M},3,12))^2; B3 every amount 0..=520; B4 indices 0..=400; B6 up to 4099 digits",
     hang_secs: 120,
     probes: None,
     max_workers: 16,
@@ -387,6 +387,38 @@ fn body(ctx: &mut Ctx) {
                     expect_nat(ctx, "BigUint &x>>u128 above u64", &args, r, &Nat::zero());
                 }
             }
+        }
+    }
+    // B6: long values (more than a thousand digits): logic, shifts by large and digit-aligned amounts, bit queries near the top
+    if ctx.space("B6") {
+        let lens: Vec<usize> = tier.pick(vec![300, 1100], vec![300, 1100, 2100, 4099]);
+        let mut set: Vec<Vec<u64>> = Vec::new();
+        for &l in &lens {
+            set.push(alpha::lcg_digits(l, 5));
+            set.push(vec![alpha::M; l]);
+            let mut v = vec![0u64; l];
+            v[l - 1] = 1;
+            set.push(v.clone());
+            v[l - 1] = alpha::H;
+            v[0] = 1;
+            set.push(v);
+        }
+        set.push(vec![1]);
+        set.push(vec![alpha::M, alpha::M]);
+        let vals = signed(&set);
+        for (i, a) in vals.iter().enumerate() {
+            if !ctx.mine(i as u64) {
+                continue;
+            }
+            for b in vals.iter() {
+                logic_pair(ctx, a, b);
+            }
+            not_value(ctx, a);
+            let top = a.i.mag.bits() as i128;
+            let amounts: Vec<i128> = vec![0, 1, 63, 64, 65, 64 * 1023, 64 * 1024, 64 * 1024 + 1, 65535, 65536, 70000, top - 1, top, top + 1, top + 64, 300_000];
+            shifts_value(ctx, a, &amounts);
+            bits_value(ctx, a, 130);
+            ctx.sample(|| format!("x of {} bits: & | ^ against {} long values (all sign pairs), !, shifts by {:?}, bit queries", top, vals.len(), amounts));
         }
     }
     if ctx.space("B4") {
